@@ -54,6 +54,7 @@ func checkC09(c *Check) {
 		return
 	}
 	c09Regex(c, sp)
+	sourceTextIntact(c, "CONTENT-INTACT")
 	suffixes := c09Pairing(c, sp)
 	c09Disjoint(c, suffixes)
 	c09PostProcess(c)
@@ -116,6 +117,71 @@ func c09Regex(c *Check, sp *ssa.Package) {
 	}
 	if n == 0 {
 		c.Okf("JSON-CLEANUP-REGEX", "none", "-", "the JSON writer applies no regular-expression clean-up to the encoder's bytes")
+	}
+	// whatever is written must be the encoder's bytes, touched by nothing but
+	// the verified clean-up: any other transformation between Marshal and Write
+	// (a byte-level replace, a trim) can alter text inside string values
+	nw := 0
+	for _, f := range p.RepoFuncs() {
+		if fnPkgPath(f) != pbutilPkg || strings.HasSuffix(p.fnFile(f), "_test.go") {
+			continue
+		}
+		isMarshal := func(v ssa.Value) bool {
+			cl, ok := v.(*ssa.Call)
+			if !ok {
+				return false
+			}
+			o := calleeObj(cl)
+			return o != nil && o.Pkg() != nil && strings.HasPrefix(o.Pkg().Path(), "google.golang.org/protobuf/") && o.Name() == "Marshal"
+		}
+		hasMarshal := false
+		eachInstr(f, func(_ *ssa.BasicBlock, i ssa.Instruction) {
+			if v, ok := i.(ssa.Value); ok && isMarshal(v) {
+				hasMarshal = true
+			}
+		})
+		if !hasMarshal {
+			continue
+		}
+		eachCall(f, func(cl ssa.CallInstruction) {
+			cc := cl.Common()
+			name := ""
+			if cc.IsInvoke() {
+				name = cc.Method.Name()
+			} else if o := calleeObj(cl); o != nil {
+				name = o.Name()
+			}
+			if name != "Write" && name != "WriteFile" && name != "WriteString" {
+				return
+			}
+			for _, a := range cc.Args {
+				if _, isBytes := a.Type().Underlying().(*types.Slice); !isBytes {
+					continue
+				}
+				off, reached := flowOffender(a, isMarshal, func(x *ssa.Call) bool {
+					o := calleeObj(x)
+					return o != nil && o.Pkg() != nil && o.Pkg().Path() == "regexp" && strings.HasPrefix(o.Name(), "Replace") // shape verified above
+				})
+				if !reached {
+					continue
+				}
+				nw++
+				key := fnName(f) + "|encoder bytes written unaltered"
+				if off != nil {
+					callee := "a call"
+					if o := calleeObj(off); o != nil {
+						callee = shortObj(o)
+					}
+					c.Flagf("ENCODED-BYTES-INTACT", key, p.pos(off.Pos()), "%s rewrites the encoder's bytes before they are written: a transformation that is not anchored to the structure of the encoding can change text inside string values, so the decoded model differs from the encoded one", callee)
+				} else {
+					c.Okf("ENCODED-BYTES-INTACT", key, p.pos(cl.Pos()), "the bytes written are the encoder's result, passed only through the verified clean-up")
+				}
+			}
+		})
+	}
+	c.Counts["encoder_writes"] = nw
+	if nw == 0 {
+		c.Undecidedf("ENCODED-BYTES-INTACT", "writers", "-", "no write of marshalled bytes found in pkg/pbutil: unresolved anchor")
 	}
 }
 
